@@ -18,3 +18,5 @@ rust_i18n::i18n!("./locales", fallback = "en");
 pub use server::verif_serve;
 #[cfg(emmyluals_emmylua_analyzer_rust_verif)]
 pub use handlers::verif_semantic_push_and_build;
+#[cfg(emmyluals_emmylua_analyzer_rust_verif)]
+pub use handlers::{verif_references, verif_rename};
